@@ -5,6 +5,7 @@ package main
 
 import (
 	"encoding/binary"
+	"encoding/json"
 	"fmt"
 	"math/rand"
 	"os"
@@ -15,7 +16,7 @@ import (
 
 func init() {
 	checks["C12"] = checkC12
-	replays["C12"] = opsReplay("access", func(ops []string) []string {
+	c12ops := opsReplay("access", func(ops []string) []string {
 		e := newAccessEnv()
 		defer e.close()
 		out := make([]string, len(ops))
@@ -28,6 +29,32 @@ func init() {
 			accessOracle(r, op, impl[i])
 		}
 	})
+	replays["C12"] = func(r *Result, raw json.RawMessage) {
+		var rp struct {
+			Ops []string `json:"ops"`
+		}
+		json.Unmarshal(raw, &rp)
+		if len(rp.Ops) > 0 && strings.Contains(rp.Ops[0], "[sent with AUTH_NONE") {
+			// the decision for a caller without AUTH_SYS credentials: sent again with AUTH_NONE (the op line carries the
+			// identity the oracle expects, 65534:65534)
+			e := newAccessEnv()
+			defer e.close()
+			for _, op := range rp.Ops {
+				var p *Peer
+				if strings.Contains(op, "over a connection") {
+					p = servePeer(e.rw, "10.7.7.8", 901)
+				}
+				got := e.runAs(op, Cred{Flavor: 0, Raw: []byte{}}, p)
+				if p != nil {
+					p.Close()
+				}
+				accessOracle(r, op, got)
+				r.noteCase(op, true)
+			}
+			return
+		}
+		c12ops(r, raw)
+	}
 }
 
 type accessEnv struct {
